@@ -144,3 +144,52 @@ package native
 //@   invariant targets: len(calls) > 0 && (calls[len(calls) - 1].Type == 241 || calls[len(calls) - 1].Type == 250) ==> calls[len(calls) - 1].To != nil
 //@   ensures at-most-last-removed [C19]: obj(out) == obj(calls) && off(out) == off(calls) && (len(out) == len(calls) || len(out) + 1 == len(calls))
 //@ end
+
+// Every other function of the package that stores a callFrame / aspectCallFrame value must keep the zero-offset
+// invariants of their slices. Verified here (type-invariant store obligations, no functional contract): the value-
+// receiver helpers and MarshalJSON. ASSUMED (trusted, listed in the evidence): the two gencodec-generated decoders
+// (they assign slices encoding/json has just allocated) and the two mutually recursive flattening functions (they
+// only copy frames of the finished tree into locals; their struct-copy stores after a recursive call could not be
+// discharged in time).
+//@ func (tracers/native.callFrame).TypeString(f) (out)
+//@   verify
+//@   properties C19
+//@   requires base-slices: off(f.Calls) == 0 && off(f.JoinPoints) == 0
+//@ end
+//@ func (tracers/native.callFrame).failed(f) (out)
+//@   verify
+//@   properties C19
+//@   requires base-slices: off(f.Calls) == 0 && off(f.JoinPoints) == 0
+//@ end
+//@ func (tracers/native.aspectCallFrame).TypeString(f) (out)
+//@   verify
+//@   properties C19
+//@   requires base-slices: off(f.Calls) == 0
+//@ end
+//@ func (tracers/native.aspectCallFrame).failed(f) (out)
+//@   verify
+//@   properties C19
+//@   requires base-slices: off(f.Calls) == 0
+//@ end
+//@ func (tracers/native.callFrame).MarshalJSON(c) (out, err)
+//@   verify
+//@   properties C19
+//@   requires base-slices: off(c.Calls) == 0 && off(c.JoinPoints) == 0
+//@ end
+// generated by gencodec: assigns the slices encoding/json has just decoded (new arrays, offset 0) - ASSUMED
+//@ func (*tracers/native.callFrame).UnmarshalJSON
+//@   trusted
+//@   modifies *
+//@ end
+//@ func (*tracers/native.aspectCallFrame).UnmarshalJSON
+//@   trusted
+//@   modifies *
+//@ end
+//@ func tracers/native.flatFromNested
+//@   trusted
+//@   modifies *
+//@ end
+//@ func tracers/native.flatAspectNested
+//@   trusted
+//@   modifies *
+//@ end
